@@ -26,6 +26,7 @@ func checkC18(r *Report, p *Program) {
 	locksReleased(r, p, "R18.7", 10)
 	// the customize manager takes one subscription per related resource and remembers it (shared with C15)
 	relatedInformerMemo(r, p, "R18.8")
+	subscriptionHandles(r, p, "R18.9")
 }
 
 // lockDiscipline (A6): all accesses to the selected shared maps hold one common
@@ -1002,4 +1003,55 @@ func createsLiveResource(p *Program, v ssa.Value) bool {
 		return live
 	}, nil)
 	return live
+}
+
+// subscriptionHandles: what identifies one subscription is never shared state of the underlying informer:
+// the close function the factory hands in is stored and called as it is (every Close() must reach the factory's
+// reference count), and AddEventHandler* do not hand out the registration of the shared fan-out handler.
+func subscriptionHandles(r *Report, p *Program, rule string) {
+	r.Rule(rule, "newSharedResourceInformer stores the factory's close function unwrapped; informerWrapper.AddEventHandler* return no handle derived from the shared informer's own registration")
+	r.Floor(rule, 3)
+	if f := fn(r, p, rule, "dynamic/informer.newSharedResourceInformer"); f != nil {
+		ok, why := false, "the close function handed in by the factory is not stored in the shared informer"
+		for _, b := range f.Blocks {
+			for _, in := range b.Instrs {
+				st, isS := in.(*ssa.Store)
+				if !isS {
+					continue
+				}
+				fa, isFA := st.Addr.(*ssa.FieldAddr)
+				if !isFA || fieldName(fa) != "close" {
+					continue
+				}
+				if len(f.Params) >= 3 && st.Val == ssa.Value(f.Params[2]) {
+					ok = true
+				} else {
+					ok, why = false, "the stored close function is "+E(st.Val)+", not the factory's own: a wrapper (once-only, conditional …) keeps later Close() calls from reaching the reference count, so the shared informer is never stopped"
+				}
+			}
+		}
+		r.Check(rule, FK(f)+"[close-unwrapped]", p.Pos(f.Pos()), ok, "close stored as handed in", why)
+	}
+	for _, m := range []string{"AddEventHandler", "AddEventHandlerWithResyncPeriod"} {
+		f := fn(r, p, rule, "dynamic/informer.informerWrapper."+m)
+		if f == nil {
+			continue
+		}
+		ok, why := true, ""
+		for _, b := range f.Blocks {
+			if rt, isR := b.Instrs[len(b.Instrs)-1].(*ssa.Return); isR && len(rt.Results) == 2 {
+				v := engine.RetVal(rt, 0)
+				if c, isC := v.(*ssa.Const); isC && c.IsNil() {
+					continue
+				}
+				if engine.BackSlice(v, func(x ssa.Value) bool {
+					fa, isFA := x.(*ssa.FieldAddr)
+					return isFA && (fieldName(fa) == "registration" || fieldName(fa) == "informer")
+				}, nil) {
+					ok, why = false, "the handle returned to a subscriber is "+E(v)+" — the registration of the shared fan-out handler: removing it (informer.RemoveEventHandler(handle)) cuts every other subscriber off"
+				}
+			}
+		}
+		r.Check(rule, FK(f)+"[own-handle]", p.Pos(f.Pos()), ok, "no shared registration handed out", why)
+	}
 }
